@@ -18,19 +18,19 @@ TEXT = {
             'L1 solver-checked for operands < 2^8 (quick) / 2^11 (thorough), argued to 2^26, not claimed above.'),
     'C07': ('Unit harnesses with unbounded symbolic rates/capacities: ingest stream deposits rate per step for duration steps, removal frees exactly the data once, admission predicate equals the room oracle (including data still to arrive), two overlapping ingests through the real admission path, the data of a finished workflow freed while another observation is mid-ingest, two Buffer objects built in one interpreter share nothing; whole simulations check both tiers after every step.',
             'Bounds: durations 1..4, two overlapping observations. Refusal paths that format operands into messages run over small case-split ranges.'),
-    'C08': ('One timestep of the real Telescope/Scheduler/Cluster/Buffer from symbolic load states (pools by prelude incl. machines reserved-idle for a batch workflow, arrays in use, unbounded buffer space/rates, two observations due); every started observation is checked against the state after earlier starts of the same step; on-time clause for an idle system; whole simulations check array/ingest limits and ingest hold times.',
+    'C08': ('One timestep of the real Telescope/Scheduler/Cluster/Buffer from symbolic load states (pools by prelude incl. machines reserved-idle for a batch workflow, arrays in use, unbounded buffer space/rates, two observations due); every started observation is checked against the state after earlier starts of the same step; on-time clause for an idle system; whole simulations (incl. four observations competing for the arrays) check array/ingest limits independently of the telescope's own counter, and ingest hold times.',
             'Bounds: 3 machines, 2 observations per step; quick tier varies array and machine resources in separate shards.'),
-    'C09': ('Real BatchProcessing._provision_resources/_max_resource_provision/run on symbolic cluster states (1..4 machines, pools, partitions, minimum, per-observation split); foreign reserved machine refused; release returns the reservation; whole simulations with competing workflows check every allocation against the owner reservation.',
+    'C09': ('Real BatchProcessing._provision_resources/_max_resource_provision/run on symbolic cluster states (1..4 machines, pools, partitions, minimum, per-observation split); foreign reserved machine refused; release returns the reservation; whole simulations with competing workflows check every allocation against the owner reservation and, every step, the size of each reservation (idle + busy for its owner) against its configured maximum.',
             'min_resources_per_workflow >= 1 (documented domain).'),
-    'C10': ('Two whole simulations of the same configuration inside one path with independent symbolic iteration ranks for the ready-task set (RankSet abstraction of hash order); outputs must be equal; counterexamples are confirmed by searching real PYTHONHASHSEED values in sub-processes before they are reported; seeded delay streams equal for seeds 0, 7, 20; 18 real-interpreter runs under different PYTHONHASHSEED validate the abstraction.',
+    'C10': ('Two whole simulations of the same configuration inside one path with independent symbolic iteration ranks for the ready-task set (RankSet abstraction of hash order); outputs must be equal; counterexamples are confirmed by searching real PYTHONHASHSEED values in sub-processes before they are reported; the builtin hash seen by topsim modules salts strings differently in the two runs (planner-owned seeded delay model); seeded delay streams equal for seeds 0, 7, 20, a second seed/degree asked afterwards draws from its own stream; 18 real-interpreter runs under different PYTHONHASHSEED validate the abstraction.',
             "CPython's actual set layout is not modelled: rank orders over-approximate hash seeds; cross-process equality is replayed, not proved."),
-    'C11': ('Real Simulation.start(k) + resume(...) against one uninterrupted start(T) for every pause point k and second cut j (solver case-split); state, step table, task table and event log compared; refusals of start-twice / resume-before-start leave everything unchanged.',
+    'C11': ('Real Simulation.start(k) + resume(...) against one uninterrupted start(T) for every pause point k and second cut j (solver case-split), also with j as the final horizon and with a first observation that starts after the earliest pauses; state, step table, task table and event log compared; refusals of start-twice / resume-before-start leave everything unchanged.',
             'T = 16, two resume segments, two observations, Batch and Queue.'),
-    'C12': ('Whole simulations with a probe process registered ahead of the monitor: every row of the per-timestep table equals the state computed independently from pools/lists, one row per step in order.',
+    'C12': ('Whole simulations with a probe process registered ahead of the monitor: every row of the per-timestep table equals the state computed independently from pools/lists, one row per step in order; fixed-horizon runs through the public API beyond completion (in one piece and paused).',
             'Bounds as C04; overlapping ingests ending at different times included.'),
-    'C13': ('Same runs as C12; event log checked per observation: each of the eight transitions exactly once, correct stamps, causal order, finished - started == duration (also checked on the partial log of a run that hits the step cap).',
+    'C13': ('Same runs as C12; event log checked per observation: each of the eight transitions exactly once, correct stamps, causal order, finished - started == duration (also checked on the partial log of a run that hits the step cap); paused fixed-horizon runs: no transition logged twice.',
             'Bounds as C04.'),
-    'C14': ('Real Planner.run -> BatchPlanning.generate_plan (real networkx) on symbolic DAGs: adjacency bits, compute, optional data demand and edge volumes are solver variables, node labels permuted; plan compared with the graph; predecessor/successor queries mutually inverse.',
+    'C14': ('Real Planner.run -> BatchPlanning.generate_plan (real networkx) on symbolic DAGs: adjacency bits, compute, optional data demand and edge volumes are solver variables, node labels permuted, edges inserted in either order; plan compared with the graph; predecessor/successor queries mutually inverse; the same planner plans a second observation from the same workflow and the first plan is checked again.',
             'Bounds: <= 3 nodes (quick) / 4 nodes all permutations (thorough); unbounded integer attributes.'),
     'C15': ('Real DelayModel.generate_delay with numpy replaced by a generator stub whose draws are solver variables: no exception, never shorter, unchanged for degree none / prob 0 / runtime 0, deterministic per seed, a second seed used afterwards draws from its own stream; real Task.do_work + Scheduler._update_current_plan for the flag and DELAYED status; whole simulations with injected delay vectors check at every step that the delayed report persists.',
             "numpy's distributions are replaced by contract E7 (seeded streams deterministic, unseeded fresh, normal(mu,0)=mu, poisson(0)=0). Runtimes 0..6."),
@@ -40,7 +40,7 @@ TEXT = {
             'Static planner output is arbitrary (stub E6), not HEFT specifically.'),
     'C18': ('Real Buffer.move_hot_to_cold / move_cold_to_hot as SimPy processes with unbounded symbolic size, both rates, capacities and other resident data: per-step conservation, slower rate, ceil(size/rate) steps, exactly one tier afterwards, refused move leaves everything unchanged, round trip.',
             'Moves of <= 3 transfer steps (quick) / 6 (thorough).'),
-    'C19': ('Each idle/empty/finished query against an independent oracle on symbolic actor states built by prelude (every pool vector, unbounded buffer sizes, observation states), and Simulation.is_finished iff all four; the same comparison at every step of whole simulations.',
+    'C19': ('Each idle/empty/finished query against an independent oracle on symbolic actor states built by prelude (every pool vector, unbounded buffer sizes, observation states), and Simulation.is_finished iff all four; buffer capacities 10^3..10^18; the same comparison at every step of whole simulations.',
             'Bounds: 3 machines, 2 observations at unit level.'),
 }
 
